@@ -199,7 +199,7 @@ theorem agree_f64 (v : JV) (hv : VOK v) (hF : Spec.WF.floatsRT (specCfg env.cfg)
         List.length_cons]
       congr 1
       omega
-    | lit s => cases hc
+    | lit s => have := hv; simp [VOK, shapeW, wfNumW] at this
   | null | bool _ | str _ | arr _ | obj _ =>
     simp only [FromValue.fromValue, FromValue.fail]
     intro x r p
